@@ -285,6 +285,50 @@ func genSharedCachePersistCase(r *rand.Rand, cfg Cfg) Case {
 	uni := Universe(r, cfg, 20+r.Intn(50))
 	ops := []string{"new 0"}
 	m := map[uint64]uint64{}
+	if r.Intn(3) == 0 {
+		// "the same root name has the same contents", read through the cache: half of the universe
+		// is persisted (the writer's own node objects enter the cache), then the same tree goes on
+		// — new keys of every layer (splitting cached nodes), then updates and deletes of old keys
+		// (in-place edits of whatever the splits produced) — and every recorded root is loaded
+		// again through that cache before and after the next persist
+		half := len(uni) / 2
+		for _, k := range uni[:half] {
+			m[k] = uint64(r.Intn(3))
+			ops = append(ops, opIns(0, k, m[k]))
+		}
+		ops = append(ops, "root 0 0", "pshape 0")
+		nroot := 1
+		for round := 0; round < 1+r.Intn(3); round++ {
+			for i := 0; i < 1+r.Intn(4); i++ {
+				k := pick(r, uni[half:])
+				m[k] = uint64(3 + r.Intn(3))
+				ops = append(ops, opIns(0, k, m[k]))
+			}
+			for i := 0; i < 1+r.Intn(4); i++ {
+				k := pick(r, uni[:half])
+				if v, ok := m[k]; ok && r.Intn(2) == 0 {
+					ops = append(ops, opDel(0, k, v))
+					delete(m, k)
+				} else {
+					m[k] = uint64(6 + r.Intn(3))
+					ops = append(ops, opIns(0, k, m[k]))
+				}
+			}
+			for j := 0; j < nroot; j++ {
+				ops = append(ops, fmt.Sprintf("load %d 5", j), "iter 5")
+			}
+			if r.Intn(2) == 0 {
+				ops = append(ops, fmt.Sprintf("root 0 %d", nroot), fmt.Sprintf("pshape %d", nroot))
+				nroot++
+			}
+		}
+		ops = append(ops, fmt.Sprintf("root 0 %d", nroot), fmt.Sprintf("pshape %d", nroot), "iter 0")
+		nroot++
+		for j := 0; j < nroot; j++ {
+			ops = append(ops, fmt.Sprintf("load %d 5", j), "iter 5", fmt.Sprintf("pshape %d", j))
+		}
+		return Case{cfg, ops}
+	}
 	for _, k := range uni {
 		m[k] = uint64(r.Intn(3))
 		ops = append(ops, opIns(0, k, m[k]))
@@ -353,7 +397,7 @@ func genSharedCachePersistCase(r *rand.Rand, cfg Cfg) Case {
 }
 
 func famPersist(f *FamCtx) {
-	f.Report.Rule = "1-5 cycles of (batch of inserts/updates/deletes, sometimes empty, sometimes delete-to-empty) -> MakeRoot on a recording store without cache (every Store call's name and bytes compared with the model's encoder and BLAKE2b) -> shape decoded by the harness from the stored bytes (C09 invariants evaluated in Go, graph compared with the model) -> reload through a JSON round-trip of the Root; one case in four: a multi-level version loaded twice through one node cache, interior keys deleted in one tree, the other modified afterwards (or: the other deletes next to and then the same interior keys before the first is persisted), both persisted versions decoded and checked; non-trivial = reached height >= 1 and changed height"
+	f.Report.Rule = "1-5 cycles of (batch of inserts/updates/deletes, sometimes empty, sometimes delete-to-empty) -> MakeRoot on a recording store without cache (every Store call's name and bytes compared with the model's encoder and BLAKE2b) -> shape decoded by the harness from the stored bytes (C09 invariants evaluated in Go, graph compared with the model) -> reload through a JSON round-trip of the Root; one case in four: a multi-level version loaded twice through one node cache, interior keys deleted in one tree, the other modified afterwards (or: the other deletes next to and then the same interior keys before the first is persisted), both persisted versions decoded and checked; or: a version persisted through the cache, the tree modified further (new keys of every layer, then updates and deletes of old keys) and every recorded root re-read through the cache before and after the next persist; non-trivial = reached height >= 1 and changed height"
 	f.Gen = func() Case {
 		if f.Rand.Intn(4) == 0 {
 			return genSharedCachePersistCase(f.Rand, RandCfg(f.Rand))
